@@ -28,7 +28,12 @@ MANIFEST = {
             'unit, consistent counts/rates/outputs, and SynthDesc must accept '
             'them and agree with the independent reader on name, controls, '
             'gate flag and bus units. Deliberately invalid graphs must be '
-            'rejected with an exception or else satisfy all of the above.',
+            'rejected with an exception or else satisfy all of the above '
+            '(NaN / None / str in any input of any catalogue unit at any '
+            'rate, tuples whose members are constants of the graph, rate '
+            'mismatches, names and variants beyond the one-byte counts); an '
+            'enumerated stage builds definitions at the limits of those '
+            'counts (1..255 control names, names of 1..255 bytes).',
     'note': 'Trusted: the SCgf reader written from the file-format '
             'documentation; creation order is observed by wrapping '
             'SynthDef._add_ugen/_replace_ugen at run time (no source hook).',
